@@ -439,6 +439,8 @@ def gen_step(rng, d, g, weights=None):
 
 
 # ------------------------------------------------------------------ builders
+_TARGETS = {}
+
 class _Marker:
     """User callables of every dispatch kind.  Each writes `marker` so that its execution is observable."""
 
@@ -600,8 +602,11 @@ def build(spec, env):
         return [DF.unpivot(uf, [{'name': spec['key'], 'type': 'string'}], {'name': spec['value'], 'type': spec['vtype']},
                            regex=spec.get('regex', True), resources=res)]
     if s == 'concatenate':
-        return [DF.concatenate({k: list(v) for k, v in spec['fields'].items()}, target={'name': spec['target'], 'path': spec['target'] + '.csv'},
-                               resources=list(spec['resources']))]
+        target = {'name': spec['target'], 'path': spec['target'] + '.csv'}
+        if env.get('reuse_targets'):
+            # a caller that keeps its target descriptor in one dict and builds its steps from it for every evaluation
+            target = _TARGETS.setdefault(spec['target'], target)
+        return [DF.concatenate({k: list(v) for k, v in spec['fields'].items()}, target=target, resources=list(spec['resources']))]
     if s == 'duplicate':
         return [DF.duplicate(spec['source'], spec['target'], spec['target'] + '.csv', batch_size=spec.get('batch_size', 1000),
                              duplicate_to_end=spec.get('to_end', False))]
